@@ -424,7 +424,10 @@ fn observe(who: Who, k: u32, tag: OpTag, h: u32) {
     };
     let via = hd.kind().to_string();
     log(EvKind::Inv { who, k, op: tag, a: Some(a), mid: None, ms: None, via, budget: true });
-    let ident = |id: rsactor::Identity| Res::Ident { a: world::actor_of_raw(id.id), raw: id.id, name: id.name().to_string() };
+    let ident = |id: rsactor::Identity| {
+        let a = world::actor_of_raw(id.id);
+        Res::Ident { a, raw: if a.is_some() { 0 } else { id.id }, name: id.name().to_string() }
+    };
     let res = match (tag, &hd) {
         (OpTag::IsAlive, Handle::Strong(r)) => Res::Bool(r.is_alive()),
         (OpTag::IsAlive, Handle::Weak(w)) => Res::Bool(w.is_alive()),
@@ -464,7 +467,8 @@ fn observe(who: Who, k: u32, tag: OpTag, h: u32) {
 }
 
 fn handle_op(who: Who, k: u32, op: &Op, me: SelfRef<'_>) {
-    let ev = |opk: HKind, h: u32, to: Option<u32>, a: Option<u32>, ok: bool, strong: bool| log(EvKind::Handle { who, k, op: opk, h, to, a, ok, strong });
+    let moved_src = matches!(op, Op::Erase { by_ref: false, .. });
+    let ev = |opk: HKind, h: u32, to: Option<u32>, a: Option<u32>, ok: bool, strong: bool| log(EvKind::Handle { who, k, op: opk, h, to, a, ok, strong, moved: moved_src && ok });
     match op {
         Op::Clone { h, to } => match slot(*h) {
             Some((hd, a)) => {
